@@ -318,6 +318,8 @@ func (m *FieldMap) CopyInto(to *FieldMap) {
 	for tag, f := range m.tagLookup {
 		clone := make(field, 1)
 		clone[0] = f[0]
+		// Repeating groups carry their members in the same field.
+		clone = append(clone, f[1:]...)
 		to.tagLookup[tag] = clone
 	}
 	to.tags = make([]Tag, len(m.tags))
